@@ -573,6 +573,7 @@ func (fc *FnCtx) modTargets(items []ast.Expr, se *SpecEnv) ([]modTarget, error) 
 					return nil, fmt.Errorf("chanof needs a channel")
 				}
 				add("CN.sent", arraySort("Int"), p.T)
+				add("CN.recvd", arraySort("Int"), p.T)
 				add("CL."+typeKey(ct.Elem()), arraySort(arraySort(fc.sortStr(ct.Elem()))), p.T)
 			case "allof":
 				// allof(T.f): the whole component of field f of struct type T; allof(elems([]T)) not needed so far
@@ -628,6 +629,7 @@ func (fc *FnCtx) modTargets(items []ast.Expr, se *SpecEnv) ([]modTarget, error) 
 					return nil, err
 				}
 				add("CN.sent", arraySort("Int"), "")
+				add("CN.recvd", arraySort("Int"), "")
 				add("CL."+typeKey(t), arraySort(arraySort(fc.sortStr(t))), "")
 			case "allmaps":
 				pkg := fc.prog.pkgByPath(se.pkgPath)
@@ -801,6 +803,12 @@ func (fc *FnCtx) instrMods(ins ssa.Instruction, li *loopInfo, depth int) {
 			break
 		}
 		fc.addrMods(li, x.Addr)
+		if a := allocRoot(x.Addr); a != nil {
+			if at, isArr := a.Type().(*types.Pointer).Elem().Underlying().(*types.Array); isArr {
+				li.mods[boxComp(a.Type().(*types.Pointer).Elem())] = true
+				li.mods[elemComp(at.Elem())] = true
+			}
+		}
 		if a := allocRoot(x.Addr); a != nil && depth == 0 && !li.blocks[a.Block()] {
 			li.localAllocs = append(li.localAllocs, a)
 		}
@@ -1326,7 +1334,7 @@ func (fc *FnCtx) loopModAll(li *loopInfo, comp string) bool {
 	}
 	for _, m := range li.con.Mods {
 		if ce, ok := m.(*ast.CallExpr); ok {
-			if id, ok := ce.Fun.(*ast.Ident); ok && strings.HasPrefix(id.Name, "all") {
+			if id, ok := ce.Fun.(*ast.Ident); ok && (strings.HasPrefix(id.Name, "all") || id.Name == "ghost") {
 				se := fc.specEnv(fc.topCon().PkgPath, fc.cur, fc.entry)
 				ts, err := fc.modTargets([]ast.Expr{m}, se)
 				if err == nil {
